@@ -130,6 +130,47 @@ def analyze(modname, fn, cfg, timeout, twin):
     return res
 
 
+def concrete_vectors(modname, fn, cfg, args_list, twin):
+    """Plain native execution of a harness function on listed concrete vectors: used only where
+    the code under test is C-backed or too slow to trace (NOT a solver claim; reported separately)."""
+    mod = importlib.import_module(modname)
+    t0 = time.time()
+    c0 = time.process_time()
+    bad = None
+    n = 0
+    for args in args_list:
+        r = native(mod, fn, cfg, args, twin)
+        n += 1
+        if r['returned'] is not True:
+            bad = args
+            break
+    return {'module': modname, 'fn': fn, 'cfg': cfg, 'twin': twin, 'wall_s': round(time.time() - t0, 2),
+            'cpu_s': round(time.process_time() - c0, 2), 'status': 'REFUTED' if bad is not None else 'CONFIRMED',
+            'confirmed_paths': 0, 'paths': n, 'reached_end': n, 'skipped': 0, 'solver_queries': 0, 'solver_time_s': 0,
+            'solver_unknown': 0, 'ch_paths': 0, 'concrete_vectors': n,
+            'messages': [{'state': 'POST_FAIL' if bad is not None else 'CONFIRMED', 'message': 'concrete vector', 'line': 0, 'args': bad}]}
+
+
+def smt(modname, fn, cfg, twin):
+    """Direct SMT obligation: the harness function builds z3 terms from the current source
+    (vlib/kernel.py) and discharges queries itself. It returns
+    {'status': CONFIRMED|REFUTED|UNKNOWN, 'args': [...], 'queries': n, 'validated': n}."""
+    from vlib import plugin
+    mod = importlib.import_module(modname)
+    q0, t0s = plugin.SOLVER['queries'], plugin.SOLVER['time_s']
+    t0 = time.time()
+    c0 = time.process_time()
+    r = getattr(mod, fn)(cfg, twin)
+    res = {'module': modname, 'fn': fn, 'cfg': cfg, 'twin': twin, 'wall_s': round(time.time() - t0, 2),
+           'cpu_s': round(time.process_time() - c0, 2), 'status': r['status'], 'confirmed_paths': 1,
+           'paths': r.get('cases', 1), 'reached_end': r.get('cases', 1), 'skipped': 0,
+           'solver_queries': plugin.SOLVER['queries'] - q0, 'solver_time_s': round(plugin.SOLVER['time_s'] - t0s, 3),
+           'solver_unknown': 0, 'ch_paths': 0, 'validated': r.get('validated', 0),
+           'messages': [{'state': 'POST_FAIL' if r['status'] == 'REFUTED' else r['status'], 'message': r.get('message', ''),
+                         'line': 0, 'args': r.get('args')}]}
+    return res
+
+
 def main():
     if sys.argv[1] == '--serve':
         # worker mode: one JSON obligation per stdin line -> one JSON result per stdout line
@@ -141,7 +182,12 @@ def main():
                 continue
             ob = json.loads(line)
             try:
-                res = analyze(ob['module'], ob['fn'], ob['cfg'], ob['timeout'], ob.get('twin', False))
+                if ob.get('kind') == 'concrete':
+                    res = concrete_vectors(ob['module'], ob['fn'], ob['cfg'], ob['args_list'], ob.get('twin', False))
+                elif ob.get('kind') == 'smt':
+                    res = smt(ob['module'], ob['fn'], ob['cfg'], ob.get('twin', False))
+                else:
+                    res = analyze(ob['module'], ob['fn'], ob['cfg'], ob['timeout'], ob.get('twin', False))
             except Exception as e:
                 res = {'status': 'HARNESS_ERROR', 'error': ''.join(traceback.format_exception(type(e), e, e.__traceback__))[-3000:]}
             res['name'] = ob.get('name')
